@@ -77,6 +77,11 @@ CHECKS = {
         technique="type-flow on the operands of the chart-membership comparisons",
         text="Decides that the comparisons deciding chart membership never route their operand through a real-typed cast unless it is a modulus, and that set and get use one chart index. Not affine maps/intersections numerically.",
         ref="DESIGN.md §4 C16"),
+    "C18": dict(
+        engine="AX1 + PA1 + SH2 + T3 + U1",
+        technique="abstract interpretation of the helpers over symbolic batch shapes with NumPy-scalar typing; axis-discipline lint; sibling agreement of the W / W^-1 permutations; call-graph unbound-name scan",
+        text="Narrow. Decides only structural necessary conditions of the 'all batch shapes' clause: every helper (projection, indefinite_orthogonalize, find_isometry, orthogonal_complement, construct_diagonal, permute_along_axis, circle/sphere_through, circle_angles, short_arc, right_to_left, arc_include) returns arrays whose leading axes are the batch axes of its input for batches of every rank including none, never assigns into a NumPy scalar, names the axis of every reordering call, permutes W and W^-1 with the same order and flag, and reaches no unbound name. Not orthogonality, spans, signatures, kernels, that the sphere contains its points, or which arc is selected (numerical contracts of the returned arrays).",
+        ref="DESIGN.md §4 C18"),
     "C19": dict(
         engine="DR1 + DR2 + DR3 + DR4 + K4 + U1",
         technique="AST def-use from each draw_* object parameter through preprocess_object; unit agreement between circle_parameters(degrees) and matplotlib Arc/Path.arc",
@@ -93,7 +98,6 @@ NA = {
     "C02": "Form preservation of computed matrices is a numerical identity; no code-shape clause is a necessary condition a realistic change breaks (DESIGN §4 C02).",
     "C07": "Correctness of the Brink-Howlett small-root automaton needs a word-problem oracle over an infinite language; no clause is visible in code shape (DESIGN §4 C07).",
     "C17": "Polynomial identities of the Lie-group maps in >=8 variables: solver/CAS or sampling family, not code shape (DESIGN §4 C17).",
-    "C18": "Orthogonality, signatures, kernels and arc orderings are numerical contracts of returned arrays (DESIGN §4 C18).",
 }
 
 TRUST = ("Trusted base: the hand-written import/MRO/CHA resolution in sa/project.py "
